@@ -12,7 +12,7 @@ ASSUMPTIONS = [
     'RELR: bitmap population restricted to the low B bit positions and the top two (the per-bit loop forks); anchors and positions otherwise arbitrary',
 ]
 STUBS = ['SymStream (io.BytesIO)', 'SxPacker (struct.Struct)', 'symbol-table double (num_symbols / get_symbol -> st_value)']
-OUTSIDE = ['R_ARM_CALL and BPF relocations (not in the statement)', 'R_MIPS_64 inside ELF32 (n32) objects', 'RELR bitmaps with bits set in the middle positions (B..60 / B..28)', 'more than 3 RELR words']
+OUTSIDE = ['R_ARM_CALL and BPF relocations (not in the statement)', 'R_MIPS_64 inside ELF32 (n32) objects', 'RELR bitmaps with bits set in the middle positions (B..60 / B..28)', 'more than 3 (quick) / 4 (thorough) RELR words']
 
 ENVS = [(32, True), (32, False), (64, True), (64, False)]
 
@@ -349,8 +349,8 @@ def _relr_instances(tier):
     B = 6 if tier == 'quick' else 10
     out = []
     for cls, little in ((64, True), (32, False)) if tier == 'quick' else ENVS:
-        for k in (0, 1, 2) + ((3,) if tier == 'thorough' else ()):
-            out.append(dict(elfclass=cls, little=little, k=k, B=B if k < 3 else 3, base=4 if k == 1 else 0))
+        for k in (0, 1, 2, 3) + ((4,) if tier == 'thorough' else ()):
+            out.append(dict(elfclass=cls, little=little, k=k, B=B if k < 3 else (2 if tier == 'quick' or k == 4 else 4), base=4 if k == 1 else 0))
     return out
 
 
